@@ -113,7 +113,7 @@ def probe_source(repo=None):
         lines.append(f'template struct {t};')
     # the ordered-set utility with a comparator whose result is a comparison category (`<=>`), not an int: the library's own
     # comparators all return int, so a branch of the utility that depends on the result type would otherwise never be seen
-    lines += ['#include <compare>',
+    lines3 = ['#include <ipr/impl>', '#include <compare>',
               'namespace ipr_probe {',
               '   inline std::strong_ordering by_address(const void* a, const void* b) { return std::compare_three_way{ }(a, b); }',
               '   struct Cmp3 { std::strong_ordering operator()(const ipr::impl::Overload& a, const ipr::Name& b) const { return by_address(&a, &b); } };',
@@ -125,6 +125,7 @@ def probe_source(repo=None):
               '                            ipr::impl::overload_entry& n, const ipr::Name& nm, const ipr::Type& t)',
               '   { l.insert(&n, LinkCmp3{ }); c.insert(nm, Cmp3{ }); return c.find(nm, Cmp3{ }) ? static_cast<const void*>(l.find(t, LinkCmp3{ })) : nullptr; }',
               '}']
+    probe_source.three_way = '\n'.join(lines3) + '\n'
     return '\n'.join(lines) + '\n', classes
 
 
@@ -220,6 +221,13 @@ def scan(repo=None, units=None, verbose=True, with_probe=True, with_ir=True):
             with open(pu, 'w') as fh:
                 fh.write(src)
             units = list(units) + [pu]
+            # a second, optional probe: the tree utility with comparators whose result is a comparison category.  A tree in which
+            # the utility no longer accepts such a comparator (it stores the result in an int, it switches on it) does not compile
+            # this unit; that is recorded, not an analysis failure
+            pu3 = os.path.join(tmp, 'probe3.cxx')
+            with open(pu3, 'w') as fh:
+                fh.write(probe_source.three_way)
+            units.append(pu3)
         for u in units:
             out = os.path.join(tmp, os.path.basename(u) + '.json')
             cmd = [SCANNER, f'--root={repo}', f'--out={out}', u, '--'] + flags(repo)
@@ -228,19 +236,24 @@ def scan(repo=None, units=None, verbose=True, with_probe=True, with_ir=True):
         irprocs = []
         if with_ir:
             for u in units:
-                if os.path.basename(u) == 'probe.cxx':
+                if os.path.basename(u) in ('probe.cxx', 'probe3.cxx'):
                     continue
                 ll = os.path.join(tmp, os.path.basename(u) + '.ll')
                 cmd = ['clang++', '-O0', '-S', '-emit-llvm', '-o', ll, u] + [x for x in flags(repo) if x != '-resource-dir' and x != RESOURCE_DIR]
                 irprocs.append((u, ll, subprocess.Popen(cmd, stdout=subprocess.PIPE, stderr=subprocess.PIPE, text=True)))
         per_unit = []
+        probe3_error = None
         for u, out, p in procs:
             _o, err = p.communicate()
+            if (p.returncode != 0 or not os.path.exists(out)) and os.path.basename(u) == 'probe3.cxx':
+                probe3_error = err[-1500:]
+                continue
             if p.returncode != 0 or not os.path.exists(out):
                 raise AnalysisBroken(f'unit {u} failed to parse with clang 14:\n{err[-3000:]}')
             with open(out) as fh:
-                per_unit.append((u, json.load(fh)))
+                per_unit.append((u.replace('probe3.cxx', 'probe.cxx'), json.load(fh)))
         merged = _merge(per_unit)
+        merged['probe3_error'] = probe3_error
         merged['ir'] = {}
         for u, ll, p in irprocs:
             _o, err = p.communicate()
@@ -302,6 +315,7 @@ class Facts:
         self.constructs = raw['constructs']
         self.units = raw['units']
         self.ir = raw.get('ir', {})
+        self.probe3_error = raw.get('probe3_error')
         self._by_q = None
         self._subs = None
         self._anc = {}
